@@ -48,6 +48,7 @@ type Contract struct {
 	Safety   bool
 	Pure     bool
 	Trusted  bool
+	Inline   bool
 	MayPanic bool
 	Requires []*Clause
 	Ensures  []*Clause
@@ -277,6 +278,8 @@ func parseContracts(fset *token.FileSet, f *ast.File, pkgPath string) (map[strin
 				cur.Pure = true
 			case "trusted":
 				cur.Trusted = true
+			case "inline":
+				cur.Inline = true
 			case "maypanic":
 				cur.MayPanic = true
 			case "requires":
@@ -686,7 +689,7 @@ func Load(rel []string, ghostDir string, extra []string) (*Engine, error) {
 	cfg := &packages.Config{
 		Mode: packages.LoadAllSyntax, Dir: repoDir, Fset: fset,
 		BuildFlags: []string{"-tags=verif"},
-		Env:        append(os.Environ(), "GOFLAGS=-mod=mod", "GOPROXY=off", "GOSUMDB=off", "GOTOOLCHAIN=local"),
+		Env:        append(os.Environ(), "GOFLAGS=-mod=readonly", "GOPROXY=off", "GOSUMDB=off", "GOTOOLCHAIN=local"),
 		ParseFile: func(fset *token.FileSet, filename string, src []byte) (*ast.File, error) {
 			return parser.ParseFile(fset, filename, src, parser.ParseComments|parser.SkipObjectResolution)
 		},
@@ -788,6 +791,11 @@ func Load(rel []string, ghostDir string, extra []string) (*Engine, error) {
 				return nil, err
 			}
 			name := "zz_vs_" + en.Name()
+			rs, err := rewriteArrowsInFile(string(src))
+			if err != nil {
+				return nil, fmt.Errorf("ghost file %s: %v", en.Name(), err)
+			}
+			src = []byte(rs)
 			tp.GhostSrc[name] = src
 			gf, err := parser.ParseFile(fset, filepath.Join(gdir, en.Name()), src, parser.ParseComments|parser.SkipObjectResolution)
 			if err != nil {
@@ -880,4 +888,174 @@ func (e *Engine) ensureBuilt(fn *ssa.Function) {
 	if fn.Blocks == nil && fn.Pkg != nil {
 		fn.Pkg.Build()
 	}
+}
+
+// rewriteArrowsInFile rewrites every `a ==> b` in a ghost source file. An
+// implication extends over its innermost enclosing bracket group (split at
+// top-level commas) or, directly inside a block, over its return statement.
+func rewriteArrowsInFile(src string) (string, error) {
+	for guard := 0; guard < 10000; guard++ {
+		pos := indexOutsideStrings(src, "==>")
+		if pos < 0 {
+			return src, nil
+		}
+		// find innermost enclosing group
+		type open struct {
+			c   byte
+			pos int
+		}
+		var stack []open
+		inStr := byte(0)
+		lineComment := false
+		for i := 0; i < pos; i++ {
+			c := src[i]
+			if lineComment {
+				if c == '\n' {
+					lineComment = false
+				}
+				continue
+			}
+			if inStr != 0 {
+				if c == '\\' && inStr != '`' {
+					i++
+				} else if c == inStr {
+					inStr = 0
+				}
+				continue
+			}
+			switch c {
+			case '/':
+				if i+1 < len(src) && src[i+1] == '/' {
+					lineComment = true
+				}
+			case '"', '`', '\'':
+				inStr = c
+			case '(', '[', '{':
+				stack = append(stack, open{c, i})
+			case ')', ']', '}':
+				if len(stack) > 0 {
+					stack = stack[:len(stack)-1]
+				}
+			}
+		}
+		if len(stack) == 0 {
+			return "", fmt.Errorf("==> outside any function body")
+		}
+		top := stack[len(stack)-1]
+		// find matching close
+		depth := 0
+		end := -1
+		inStr = 0
+		for i := top.pos; i < len(src); i++ {
+			c := src[i]
+			if inStr != 0 {
+				if c == '\\' && inStr != '`' {
+					i++
+				} else if c == inStr {
+					inStr = 0
+				}
+				continue
+			}
+			switch c {
+			case '"', '`', '\'':
+				inStr = c
+			case '(', '[', '{':
+				depth++
+			case ')', ']', '}':
+				depth--
+				if depth == 0 {
+					end = i
+				}
+			}
+			if end >= 0 {
+				break
+			}
+		}
+		if end < 0 {
+			return "", fmt.Errorf("unbalanced brackets around ==>")
+		}
+		var segStart, segEnd int
+		if top.c == '{' {
+			// statement: from the last "return" before pos (at this depth) to end of statement
+			k := strings.LastIndex(src[top.pos:pos], "return")
+			if k < 0 {
+				return "", fmt.Errorf("==> in a block must be inside a return statement or parentheses")
+			}
+			segStart = top.pos + k + len("return")
+			segEnd = end
+			d := 0
+			for i := pos; i < end; i++ {
+				c := src[i]
+				if c == '(' || c == '[' || c == '{' {
+					d++
+				} else if c == ')' || c == ']' || c == '}' {
+					d--
+				} else if c == '\n' && d == 0 {
+					prev := strings.TrimRight(src[segStart:i], " \t")
+					if strings.HasSuffix(prev, "&&") || strings.HasSuffix(prev, "||") || strings.HasSuffix(prev, "==>") || strings.HasSuffix(prev, ",") || strings.HasSuffix(prev, "(") {
+						continue
+					}
+					segEnd = i
+					break
+				}
+			}
+		} else {
+			// bracket group: the comma-separated part containing pos
+			segStart, segEnd = top.pos+1, end
+			d := 0
+			for i := top.pos + 1; i < end; i++ {
+				c := src[i]
+				if c == '(' || c == '[' || c == '{' {
+					d++
+				} else if c == ')' || c == ']' || c == '}' {
+					d--
+				} else if c == ',' && d == 0 {
+					if i < pos {
+						segStart = i + 1
+					} else {
+						segEnd = i
+						break
+					}
+				}
+			}
+		}
+		seg := src[segStart:segEnd]
+		src = src[:segStart] + " " + rewriteImplies(seg) + src[segEnd:]
+	}
+	return "", fmt.Errorf("too many ==> rewrites")
+}
+
+func indexOutsideStrings(src, pat string) int {
+	inStr := byte(0)
+	lineComment := false
+	for i := 0; i < len(src); i++ {
+		c := src[i]
+		if lineComment {
+			if c == '\n' {
+				lineComment = false
+			}
+			continue
+		}
+		if inStr != 0 {
+			if c == '\\' && inStr != '`' {
+				i++
+			} else if c == inStr {
+				inStr = 0
+			}
+			continue
+		}
+		switch c {
+		case '/':
+			if i+1 < len(src) && src[i+1] == '/' {
+				lineComment = true
+			}
+		case '"', '`', '\'':
+			inStr = c
+		default:
+			if strings.HasPrefix(src[i:], pat) {
+				return i
+			}
+		}
+	}
+	return -1
 }
